@@ -32,8 +32,8 @@ NCPU = min(16, os.cpu_count() or 1)
 # property -> harness, run counts per tier and flavour, description of parts
 PROPS = {
     "C10": dict(harness="c10_pool", concurrent=True,
-                runs=dict(quick=dict(plain=120000, asan=12000, tsan=12000),
-                          thorough=dict(plain=2400000, asan=240000, tsan=240000)),
+                runs=dict(quick=dict(plain=400000, asan=40000, tsan=40000),
+                          thorough=dict(plain=8000000, asan=800000, tsan=800000)),
                 real=["tlx/thread_pool.cpp", "tlx/thread_pool.hpp", "tlx/delegate.hpp", "tlx/container/simple_vector.hpp"],
                 stub=["std::thread", "std::mutex", "std::condition_variable", "std::atomic (scheduler shims over real ::std objects)"]),
     "C11": dict(harness="c11_sync", concurrent=True,
@@ -47,22 +47,22 @@ PROPS = {
                 real=["tlx/counting_ptr.hpp (CountingPtr, ReferenceCounter, deleters)"],
                 stub=["std::atomic", "std::thread (scheduler shims over real ::std objects)"]),
     "C06": dict(harness="c06_pmsort", concurrent=True,
-                runs=dict(quick=dict(plain=100000, asan=20000, tsan=20000),
-                          thorough=dict(plain=2000000, asan=400000, tsan=400000)),
+                runs=dict(quick=dict(plain=200000, asan=30000, tsan=30000),
+                          thorough=dict(plain=4000000, asan=600000, tsan=600000)),
                 real=["tlx/sort/parallel_mergesort.hpp", "tlx/algorithm/multiway_merge.hpp", "tlx/algorithm/multisequence_partition.hpp",
                       "tlx/algorithm/multiway_merge_splitting.hpp", "tlx/thread_barrier_mutex.hpp", "tlx/container/loser_tree.hpp",
                       "tlx/container/simple_vector.hpp"],
                 stub=["std::thread", "std::mutex", "std::condition_variable (scheduler shims over real ::std objects)"]),
     "C07": dict(harness="c07_pmerge", concurrent=True,
-                runs=dict(quick=dict(plain=100000, asan=20000, tsan=20000),
-                          thorough=dict(plain=2000000, asan=400000, tsan=400000)),
+                runs=dict(quick=dict(plain=200000, asan=30000, tsan=30000),
+                          thorough=dict(plain=4000000, asan=600000, tsan=600000)),
                 real=["tlx/algorithm/parallel_multiway_merge.hpp", "tlx/algorithm/parallel_multiway_merge.cpp",
                       "tlx/algorithm/multiway_merge_splitting.hpp", "tlx/algorithm/multisequence_partition.hpp",
                       "tlx/algorithm/multiway_merge.hpp", "tlx/algorithm/merge_advance.hpp", "tlx/container/loser_tree.hpp"],
                 stub=["std::thread (scheduler shim over real ::std::thread)"]),
     "C04": dict(harness="c04_ps5", concurrent=True,
-                runs=dict(quick=dict(plain=40000, asan=8000, tsan=8000),
-                          thorough=dict(plain=800000, asan=160000, tsan=160000)),
+                runs=dict(quick=dict(plain=100000, asan=15000, tsan=15000),
+                          thorough=dict(plain=2000000, asan=300000, tsan=300000)),
                 real=["tlx/sort/strings_parallel.hpp", "tlx/sort/strings/parallel_sample_sort.hpp", "tlx/sort/strings/sample_sort_tools.hpp",
                       "tlx/sort/strings/string_ptr.hpp", "tlx/sort/strings/string_set.hpp", "tlx/sort/strings/insertion_sort.hpp",
                       "tlx/thread_pool.cpp", "tlx/thread_pool.hpp", "tlx/multi_timer.cpp", "tlx/logger/core.cpp", "tlx/die/core.cpp"],
@@ -81,8 +81,8 @@ PROPS = {
                 stub=["allocator (sim::Alloc as the Alloc/Allocator argument: list nodes, hash nodes and buckets, splay nodes): seeded recycling, poisoning, quarantine, canaries, ledger",
                       "key type (lifetime ledger, heap-owning) for the splay tree"]),
     "C02": dict(harness="c02_btree", concurrent=True, single_task=True,
-                runs=dict(quick=dict(plain=60000, asan=12000),
-                          thorough=dict(plain=1200000, asan=240000)),
+                runs=dict(quick=dict(plain=200000, asan=40000),
+                          thorough=dict(plain=4000000, asan=800000)),
                 real=["tlx/container/btree.hpp", "tlx/container/btree_set.hpp", "tlx/container/btree_multiset.hpp",
                       "tlx/container/btree_map.hpp", "tlx/container/btree_multimap.hpp", "tlx/die/core.cpp"],
                 stub=["allocator (sim::Alloc as the Allocator argument, rebound to leaf and inner node types): seeded recycling, poisoning, quarantine, canaries, ledger",
